@@ -421,6 +421,16 @@ func (ty *Types) unbox(t types.Type, p Term) Term {
 	return sx("unbox$"+typeKey(t), p)
 }
 
+// isRefLike: values that are references to allocated objects (function values are not: they are function ids or
+// negative closure ids)
+func isRefLike(t types.Type) bool {
+	switch t.Underlying().(type) {
+	case *types.Pointer, *types.Map, *types.Chan:
+		return true
+	}
+	return false
+}
+
 func isPointerLike(t types.Type) bool {
 	switch t.Underlying().(type) {
 	case *types.Pointer, *types.Map, *types.Chan, *types.Signature:
